@@ -9,7 +9,9 @@ parse_expr is evaluated from its syntax tree (sa/objmodel.py, following helpers)
 four abstract builders replaced by tuple constructors, for every well-formed stream with
 at most three operators over two prefix, one postfix and three infix operators (two
 left-, one right-associative), and every assignment of precedences 1..3 in which
-operators of different kinds do not tie (the property leaves such ties open); the tree
+operators of different kinds do not tie (the property leaves such ties open), each
+also shifted to lie around and below zero (the loop's initial bound is one more
+quantity the declared numbers are compared with: a table is any table of integers); the tree
 is compared with the textbook precedence-climbing tree, and the stream must be consumed.
 """
 
@@ -92,11 +94,11 @@ def reference(tokens: list[str], prec: dict[str, int], pre: tuple = PRE, post: t
                 break
         return left
 
-    tree = parse(0)
+    tree = parse(float("-inf"))  # the whole expression: no operator of the table is below the initial bound
     return tree, pos
 
 
-def check_pratt(repo: Repo, where: str, max_ops: int = 3) -> tuple[int, list[tuple[str, str]]]:
+def check_pratt(repo: Repo, where: str, max_ops: int = 3, shifts: tuple = (0, -2, -4)) -> tuple[int, list[tuple[str, str]]]:
     cm = ClassModel(repo, ["src/pest/pratt.py", "src/pest/pairs.py"], where, max_steps=100000)
     for need in ("PrattParser", "Stream"):
         if need not in cm.classes:
@@ -150,9 +152,12 @@ def check_pratt(repo: Repo, where: str, max_ops: int = 3) -> tuple[int, list[tup
     for toks in streams(max_ops):
         ops_in = sorted({t for t in toks if t in PRE + POST + INF})
         for prec in tables(ops_in):
-            full = {**{o: 1 for o in PRE + POST + INF}, **prec}
-            n += 1
-            run(instance(declare(full)), toks, full)
+            # the initial bound of the loop is one more quantity the precedences are compared with: every order type
+            # of the declared numbers is placed above it (1..3), around it (-1..1) and below it (-3..-1)
+            for shift in shifts:
+                full = {o: v + shift for o, v in {**{o: 1 for o in PRE + POST + INF}, **prec}.items()}
+                n += 1
+                run(instance(declare(full)), toks, full)
     # zero-width tokens: an infix, prefix or postfix operator that matches the empty string, and an empty operand
     for toks, empty in ((["x0", "a", "x1", "b", "x2"], ("a",)), (["x0", "a", "x1", "b", "x2"], ("a", "b")), (["n1", "x0", "a", "x1"], ("n1",)), (["x0", "f1", "a", "x1"], ("f1",)),
                         (["x0", "a", "x1"], ("x1",)), (["x0", "c", "x1", "c", "x2"], ("c", "x0"))):
